@@ -8,8 +8,9 @@
   (`subst`, `applyLog`): this is how aliasing becomes observable in the model.  `abs` erases
   labels and gives the JSON value (`Gojq.JV`).
 
-  Transliterated from /repo/func.go (the tree after the fixes abf8186, 97b79ee, 622959f):
+  Transliterated from /repo/func.go (the tree after the fixes abf8186, 97b79ee, 622959f, abb84a0):
     allocator.allocated / makeObject / makeArray   → the owned-label list `A` and the fresh counter `f`
+    allocator.free                                 → `A.filter (· ≠ id)` where an owned array is re-allocated
     allocator.release                              → `release`
     update / updateObject / updateArrayIndex       → `upd`   (n ≠ struct{}{}: setpath)
                                                    → `mark`  (n = struct{}{}: the marking pass of delpaths)
@@ -271,6 +272,26 @@ def enter : PE → T → Option (Option (Nat × Nat) × Bool × Focus)
                      ⟨ks ++ nullKids (i - ks.length), [], T.null, [], decide (i < c), max (i + 1) (c * 2), max (i + 1) c⟩)
   | _, _ => none
 
+def cellIds : Option (Nat × Nat) → List Nat
+  | some (id, _) => [id]
+  | none => []
+
+/-- the cells entered along a path: the spine that `upd` rewrites -/
+def spine : Path → T → List Nat
+  | [], _ => []
+  | e :: p, v =>
+    match enter e v with
+    | none => []
+    | some (cell, _, fo) => cellIds cell ++ spine p fo.child
+
+/-- the subtree that `upd` replaces (`null` where the path leaves the value) -/
+def subE : Path → T → T
+  | [], v => v
+  | e :: p, v =>
+    match enter e v with
+    | none => T.null
+    | some (_, _, fo) => subE p fo.child
+
 /-- `update(v, path, n, a)` of func.go for `n ≠ struct{}{}`: every container on the path is written in
     place when its cell is owned (`a.allocated`), else copied into a fresh owned cell.
     Result: (new value, allocator, fresh counter, in-place writes); `none` = Go error. -/
@@ -288,7 +309,7 @@ def upd (A : List Nat) (f : Nat) : Path → T → T → Option (T × List Nat ×
         | some (id, c) =>
           if id ∈ A1 then
             if fo.fits then some (.node id o c kids, A1, f1, log ++ [(id, kids)])
-            else some (.node f1 o fo.capO kids, f1 :: A1, f1 + 1, log)
+            else some (.node f1 o fo.capO kids, f1 :: A1.filter (· ≠ id), f1 + 1, log)   -- `a.free(v)` (abb84a0)
           else some (.node f1 o fo.capN kids, f1 :: A1, f1 + 1, log)
         | none => some (.node f1 o fo.capN kids, f1 :: A1, f1 + 1, log)
 
